@@ -59,6 +59,117 @@ CLAIMED = {
              "finalisation-after-allocation-failure crash sites found on the unchanged tree are a listed known finding, "
              "matched by call site; any other site is a violation.",
         tech="property-based boundary sweep (Hypothesis) + exhaustive/sampled allocation-fault injection, sanitizers as oracle"),
+    "C05": dict(
+        text="Two generated searches. Part A (ECDSA, EC-Schnorr, RSA with PSS / PKCS#1 v1.5 / BASIC paddings, vBNN-IBS, "
+             "proofs and signatures of knowledge): two-sided differential verdict_lib == verdict_ref against independent "
+             "Python verifiers written from the standards (FIPS 186-4 / SEC 1, RFC 8017) or from the construction "
+             "documented in the source, on honest signatures, a mutation catalogue (bit flips, r+n, s+n, n-s, 0, n, "
+             "sig+N, zero-prefixed / truncated encodings, EM-level forgeries encrypted with the private exponent, foreign / "
+             "identity / off-curve / small-order keys) and arbitrary tuples, on every curve of the build. Part B (BLS, "
+             "BB, ZSS, CL, PS and multi-message variants, CMLHS, MKLHS, ring / extendable signatures): verdict_lib == "
+             "(scheme's verification equation re-evaluated by the harness with pc_map AND reference-side "
+             "well-formedness of every element), plus completeness over ring sizes / signer positions and rejection of "
+             "every single-component substitution.",
+        note="Signing keys come from key generation under a per-case DRBG seed; messages, signatures and public keys are "
+             "untrusted. Part B trusts pc_map / g1 / g2 arithmetic (decided by C03, C04, C11, C12). One known finding: "
+             "public-key elements are not validated by several pairing verifiers (low severity, no patch).",
+        tech=PBT + "independent reference verifiers (differential, both directions) and re-evaluated verification equations; mutation catalogue"),
+    "C06": dict(
+        text="Two generated searches. Part A (RSA encryption with OAEP / PKCS#1 v1.5 / BASIC, Rabin, Benaloh, Paillier, "
+             "Damgard-Jurik, subgroup Paillier, bn_mxp_crt): round trip for every plaintext length from 0 to max+1 of "
+             "each generated key, reference decryption of library ciphertexts with the exported private key, "
+             "reference-built valid and deliberately broken ciphertexts decided exactly as the reference decides, "
+             "homomorphic sums incl. wrapping ones, byte mutations, output capacities exact-1/exact/+1. Part B (ECIES, "
+             "ECDH, ECMQV, SOK, IBE, BGN, Shamir sharing over every subset, multiplication / pairing triples, three PSI "
+             "protocols, four delegated-pairing protocols): reference recomputation of the ciphertext / key from the "
+             "protocol definition, every truncation and sampled byte mutation rejected, exhaustive subset enumeration, "
+             "exact intersections, dishonest-helper rejection.",
+        note="Keys come from the library's key generation under a per-case DRBG seed (pooled in the shim, exported to the "
+             "reference). Plaintexts are inside the range each scheme admits.",
+        tech=PBT + "reference encryption / decryption and protocol formulas from the standards; round-trip, differential and mutation oracles"),
+    "C12": dict(
+        text="Generated-input search over g1_is_valid / g2_is_valid / gt_is_valid in both directions (members: reference "
+             "multiples of generators, pairing outputs; non-members: reference-lifted curve / twist points, small-order "
+             "points, member + torsion, off-curve pairs, random / cyclotomic-but-not-order-r / subfield Fp12 elements, 0, "
+             "the identity) with the oracle [r]P = O on the reference curve resp. a^r = 1 in the reference Fp12, and over "
+             "every g1/g2 multiplication and gt exponentiation form against the reference multiple / power for all "
+             "scalars incl. 0, negative, >= r; on BN-P256, SM9-P256 and BLS12-381 (the configuration where G1 has a "
+             "cofactor).",
+        note="Multiplications / exponentiations are compared for members only (order-dependent decompositions by design), "
+             "except the *_mul_any forms documented for arbitrary points.",
+        tech=PBT + "reference subgroup tests and reference powers in an independent curve / Fp12 model (two-sided)"),
+    "C13": dict(
+        text="Generated-input search over ep_map, ep_map_basic / sswum / swift, ep_map_rnd (uniform strings SOLVED by the "
+             "reference to hit the exceptional field elements 0, +-1, SSWU / SvdW exceptional values, every square / "
+             "non-square combination and both parities), ep2_map*, eb_map, ed_map(_dst), ep_mul_cof; three oracle "
+             "layers: validity (on curve, [r]P = O by the reference), determinism (also across unrelated work and "
+             "re-selection), and equality with an independent RFC 9380 construction (expand_message_xmd, SSWU / SvdW / "
+             "SwiftEC / Elligator 2 / try-and-increment, isogeny by polynomial evaluation, cofactor clearing).",
+        note="Map constants (Z, isogeny tables) are read from the library and validated against the RFC's criteria. "
+             "SwiftEC candidate order and sign convention are read from the source (listed as assumptions).",
+        tech=PBT + "an independent RFC 9380 hash-to-curve reference; exceptional inputs constructed by solving for them"),
+    "C14": dict(
+        text="Generated-input differential search over SHA-224/256/384/512, BLAKE2s-160/256, HMAC, KDF2, MGF1, "
+             "expand_message_xmd and AES-CBC with PKCS#7 against hashlib / hmac and references written from FIPS 197, "
+             "SP 800-38A, IEEE 1363, RFC 9380 (self-tested on published vectors): every message-length residue around the "
+             "padding boundaries, 0..4 blocks and long messages, key lengths around the block size, output lengths incl. "
+             "non-multiples and counter >= 256, DST lengths 0..255 and the refused cases, all AES key sizes, ciphertext "
+             "mutations that must be rejected.",
+        note="HMAC / KDF / MGF follow the build's MD_MAP; the md-* builds are in the thorough tier.",
+        tech=PBT + "hashlib / hmac and from-the-standard AES, KDF, XMD references (byte equality, round trip, padding rejection)"),
+    "C15": dict(
+        text="Generated call HISTORIES (instantiate / reseed / generate with lengths 0..65536 and beyond the limit / "
+             "bn_rand / bn_rand_mod / fp_rand, 1..40 steps, shrunk as one value) executed in lock-step with an SP 800-90A "
+             "Hash_DRBG reference: output bytes AND the raw 111-byte working state and reseed counter are compared "
+             "after every step; two further families force long carry ripples (seeds searched by the reference) and "
+             "drive the reseed counter past 32768.",
+        note="The reference reproduces the NIST Hash_DRBG example vectors. bn_rand_mod is modelled for positive bounds; for "
+             "negative bounds only range / sign / determinism are asserted.",
+        tech="model-based property testing (Hypothesis histories) against an SP 800-90A Hash_DRBG reference model, state compared per step"),
+    "C17": dict(
+        text="Generated-input search over the Edwards module on Ed25519 (255-bit build): group law in affine / projective / "
+             "extended coordinates for ALL operands incl. the neutral element and the points of order 2, 4, 8, every "
+             "scalar multiplication (variable, fixed-base with each table, simultaneous) against an independent "
+             "twisted-Edwards reference, compression / decompression and binary codecs, hashing to the curve (validity, "
+             "determinism, equality with an RFC 9380 reference).",
+        note="Only CURVE_ED25519 is selectable. Torsion-carrying points get scalars >= r only through the non-reducing "
+             "routines; a loud error for scalars the recoding buffers cannot hold is accepted.",
+        tech=PBT + "an independent twisted-Edwards reference (complete addition law); round-trip and reference-construction oracles"),
+    "C18": dict(
+        text="Exhaustive enumeration of every identifier accepted by fp / fb / ep / eb / ed parameter selection and both "
+             "twist types at each built size, crossed with 69 consistency relations decided by sympy and the reference "
+             "models (primality, irreducibility, family polynomials, non-residues, roots of unity, Montgomery and "
+             "divstep constants, generator / order / cofactor via [h*r]P = O on reference-lifted random points, "
+             "endomorphism and GLV lattice, twist consistency, Frobenius constants, embedding degree, security level, "
+             "hash-to-curve constants against the RFC 9380 criteria); point-based relations use generated points.",
+        note="exhaustive refers to the (identifier, relation) space of each configuration; point material is generated. "
+             "ep3/ep4/ep8 twists (k = 16..54) are covered by base-field / base-curve / embedding-degree relations only.",
+        tech="exhaustive enumeration of parameter identifiers x relations + generated points, oracle = sympy and independent reference models",
+        level="exploration"),
+    "C19": dict(
+        text="Four generated searches: (1) try/throw/catch/finally programs (recursive trees, depth <= 6, non-local exits "
+             "across C frames) executed by a C interpreter built from the real RLC_* macros, against an executable model "
+             "of the documented semantics (handler choice, finally exactly once, handler chain restored, sticky code); "
+             "(2) histories over up to four contexts, each compared with an independent single-context run; (3) "
+             "re-parameterisation sequences with heavy use in between, the final probe battery compared with a fresh "
+             "process that performs only the last selection (all ordered pairs / triples in the thorough tier); (4) "
+             "threads with generated workloads under a harness-owned operation-level schedule, plus free-running "
+             "threads under TSan.",
+        note="Interleavings are owned at library-call granularity; instruction-level interleavings are sampled by the "
+             "TSan mode, not enumerated. return/goto out of a protected block and throws inside FINALLY are not generated "
+             "(documented as forbidden / undocumented).",
+        tech="model-based property testing: generated programs / histories / schedules against an executable state-machine model and fresh-process differentials"),
+    "C20": dict(
+        text="Metamorphic search on -fsanitize-coverage=trace-pc builds: for batches of secret scalars of ONE public bit "
+             "length (random, low / high Hamming weight, runs, 2^(l-1), 2^l - 1, n-1, zero GLV halves) the recorded "
+             "sequence of group-level operations of each ladder / regular-recoding routine (ep, ep2, g1/g2/gt _sec, eb, "
+             "ed, bn / fp / fb ladders, bn_rec_reg) must be identical within the batch; for the masked copy / swap / "
+             "compare primitives the full basic-block trace must be identical across data and condition bits. Variable-"
+             "time siblings serve as positive controls in every run.",
+        note="Decides control flow at the level the statement names, on clang-14 -O1 object code; cache / address leaks "
+             "and the variable-time field arithmetic of the easy backend are outside the statement. One known finding "
+             "(eb_mul_lodah at k = n-1).",
+        tech="metamorphic property testing on compiler-instrumented control-flow traces (trace-pc), generated scalar batches"),
 }
 REASONS_TODO = "check not built yet (work in progress; see DESIGN.md §5 implementation order)"
 
